@@ -7,7 +7,7 @@ CONSTANTS
   MetaVals <- B
   Ns = {1, 2, 3, 4}
   MaxGroups = 3
-  Bulks = {1, 2, 3}
+  Bulks = {2, 3}
   Mults = {1}
   Pcts <- PctQuick
   Conflicts <- CNone
